@@ -133,7 +133,7 @@ func (g *gen) ranges() [][2]rune {
 func (g *gen) lexExpr(depth int, macros []string, allowNullable bool) *LexExpr {
 	mk := func() *LexExpr {
 		a := g.lexAtom(macros)
-		switch g.pick(10) {
+		switch g.pick(12) {
 		case 0:
 			a.Card = CPlus
 		case 1:
@@ -142,6 +142,10 @@ func (g *gen) lexExpr(depth int, macros []string, allowNullable bool) *LexExpr {
 			}
 		case 2:
 			a.Card = COpt
+		case 3:
+			if g.chance(50) && a.Op != LLit {
+				a.Card = []int{CStarNG, CPlusNG}[g.pick(2)]
+			}
 		}
 		return a
 	}
@@ -289,8 +293,8 @@ func (g *gen) richLexer() {
 				}
 			case 5, 6: // discarding fragment
 				m.Rules = append(m.Rules, &LexRule{Kind: RFrag, Expr: g.lexExpr(0, macros, allowNull), Actions: []LexAction{{Kind: ADiscard}}})
-			case 7, 8: // accumulating fragment, perhaps switching mode
-				r := &LexRule{Kind: RFrag, Expr: g.lexExpr(0, macros, false)}
+			case 7, 8: // accumulating fragment (sometimes nullable), perhaps switching mode
+				r := &LexRule{Kind: RFrag, Expr: g.lexExpr(0, macros, allowNull || g.chance(15))}
 				if nModes > 0 && g.chance(40) {
 					if mi == 0 || g.chance(30) {
 						r.Actions = append(r.Actions, LexAction{Kind: APush, Arg: modeNames[g.pick(nModes)]})
@@ -309,6 +313,33 @@ func (g *gen) richLexer() {
 				}
 			}
 		}
+	}
+	// Idioms from real grammars: a string mode whose body is a nullable
+	// accumulating fragment, and a comment mode whose body is a nullable
+	// non-greedy fragment.
+	if g.chance(35) {
+		q := []string{"\"", "`", "|"}[g.pick(3)]
+		name := "Str"
+		// declared first so that it wins ties against catch-all rules
+		def.Rules = append([]*LexRule{{Kind: RFrag, Expr: &LexExpr{Op: LLit, Lit: q}, Actions: []LexAction{{Kind: APush, Arg: name}}}}, def.Rules...)
+		end := &LexRule{Kind: RTok, Name: newTok(), Expr: &LexExpr{Op: LLit, Lit: q}, Actions: []LexAction{{Kind: APop}}}
+		body := &LexRule{Kind: RFrag, Expr: &LexExpr{Op: LClass, Neg: true, Ranges: [][2]rune{{rune(q[0]), rune(q[0])}, {'\\', '\\'}, {'\n', '\n'}}, Card: []int{CStar, CStar, CPlus}[g.pick(3)]}}
+		esc := &LexRule{Kind: RFrag, Expr: &LexExpr{Op: LSeq, Kids: []*LexExpr{{Op: LLit, Lit: "\\"}, {Op: LAny}}}}
+		modes = append(modes, &LexMode{Name: name, Rules: []*LexRule{end, esc, body}})
+		allToks = append(allToks, end.Name)
+		loopMode[len(modes)-1] = true
+	}
+	if g.chance(35) {
+		name := "Cmt"
+		def.Rules = append([]*LexRule{{Kind: RFrag, Expr: &LexExpr{Op: LLit, Lit: "#"}, Actions: []LexAction{{Kind: APush, Arg: name}}}}, def.Rules...)
+		body := &LexRule{Kind: RFrag, Expr: &LexExpr{Op: LClass, Neg: true, Ranges: [][2]rune{{'\n', '\n'}}, Card: []int{CStarNG, CStar, CPlusNG}[g.pick(3)]}}
+		end := &LexRule{Kind: RFrag, Expr: &LexExpr{Op: LLit, Lit: "\n"}, Actions: []LexAction{{Kind: ADiscard}, {Kind: APop}}}
+		if g.chance(50) {
+			end = &LexRule{Kind: RTok, Name: newTok(), Expr: &LexExpr{Op: LLit, Lit: "\n"}, Actions: []LexAction{{Kind: APop}}}
+			allToks = append(allToks, end.Name)
+		}
+		modes = append(modes, &LexMode{Name: name, Rules: []*LexRule{body, end}})
+		loopMode[len(modes)-1] = true
 	}
 	// Every extra mode gets a way out most of the time, and the default mode
 	// gets a whitespace rule most of the time.
